@@ -126,6 +126,14 @@ def comp_case(col, rng, cidx, jobref=None):
             # aim at the unjudged corner on purpose: a setup node as input, a setup node that consumes it among the outputs' needs
             a_, b_ = rng.choice(chains)
             ins, outs = [a_], [rng.choice(sorted(nx.descendants(g, b_) | {b_}))]
+        same_fn = [(j_, i_) for i_ in range(n) for j_ in range(i_ + 1, n) if sp["nodes"][i_]["fn"] == sp["nodes"][j_]["fn"]
+                   and not nx.has_path(g, i_, j_)]
+        if same_fn and rng.random() < 0.3:
+            # two usages of ONE function as inputs, the later usage (f<<1>>) named first
+            ins = list(rng.choice(same_fn))
+            rest = [q for q in range(n) if q not in ins]
+            if rest:
+                outs = [rng.choice(rest)]
         if set(ins) & set(outs):
             col.counters["skipped_inputs_overlap_outputs"] += 1
             continue
@@ -278,6 +286,30 @@ def comp_case(col, rng, cidx, jobref=None):
         if set(ent) != exp_run or any(v != 1 for v in ent.values()):
             col.violation(pid, "composed_dag_ran_more_or_less_than_the_outputs_need", dict(
                 executed=sorted(ent.items()), expected=sorted(exp_run), inputs=S.jsonable(in_alias if in_alias is not ... else "..."), outputs=S.jsonable(out_alias), source=S.render(sp)), rp2)
+        if vals and rng.random() < 0.35 and not c.__class__.__name__.startswith("Async"):
+            # C20 over composed DAGs: calling the composed DAG inside a describing function is the same as calling it directly
+            # (its input stubs and nodes get prefixed ids that neither collide with each other nor with the outer DAG's)
+            from tawazi import dag as _dag
+
+            names = ["a%d" % q for q in range(len(vals))]
+            env_o = {"c_": c}
+            exec("def nest_o%d_%d(%s):\n    return c_(%s)\n" % (cidx, _k, ", ".join(names), ", ".join(names)), env_o)  # noqa: S102
+            col.counters["c20_composed_dags_nested_in_an_outer_dag"] += 1
+            try:
+                outer_ = _dag(env_o["nest_o%d_%d" % (cidx, _k)])
+                ro = probes.run_op("nested_composed_call", lambda: outer_(*vals))
+            except BaseException as e:  # noqa: BLE001
+                if isinstance(e, (KeyboardInterrupt, SystemExit)):
+                    raise
+                ro = ("exc", e)
+            if ro[0] != "ok":
+                col.violation("C20", "composed_dag_cannot_be_nested_like_it_is_called", dict(
+                    exc=repr(ro[1])[:300], inputs=S.jsonable(in_alias if in_alias is not ... else "..."), outputs=S.jsonable(out_alias),
+                    source=S.render(sp)), rp2)
+            elif not same(ro[1], r[1]):
+                col.violation("C20", "nested_composed_dag_returns_another_value_than_the_direct_call", dict(
+                    direct=short(r[1], 300), nested=short(ro[1], 300), inputs=S.jsonable(in_alias if in_alias is not ... else "..."),
+                    outputs=S.jsonable(out_alias), source=S.render(sp)), rp2)
         col.hashes.add(S.spec_hash({"s": S.render(sp), "i": sorted(ins), "p": par_in, "o": outs}))
         if col.evaluations % 150 < 3:
             col.sample(dict(source=S.render(sp), inputs=S.jsonable(in_alias if in_alias is not ... else "..."), outputs=S.jsonable(out_alias),
